@@ -9,30 +9,32 @@ namespace PyIpmi.Loops
 open PyIpmi PyIpmi.Spec.Attribution
 
 /-- `g` was carried by a frame of `S`. -/
-def Sound (S : List Frame) (g : Frame) : Prop := ∃ dg ∈ S, Carries dg g
+def Sound (st : Bool) (S : List Frame) (g : Frame) : Prop := ∃ dg ∈ S, Carries st dg g
 
-theorem Sound.mono {S S' : List Frame} {g : Frame} (h : Sound S g) (hs : ∀ x ∈ S, x ∈ S') : Sound S' g := by
+theorem Sound.mono {st : Bool} {S S' : List Frame} {g : Frame} (h : Sound st S g) (hs : ∀ x ∈ S, x ∈ S') :
+    Sound st S' g := by
   obtain ⟨dg, hd, hc⟩ := h
   exact ⟨dg, hs dg hd, hc⟩
 
-theorem Sound.step {S : List Frame} {f g : Frame} (h : Sound S f) (hc : Carries f g) : Sound S g := by
+theorem Sound.step {st : Bool} {S : List Frame} {f g : Frame} (h : Sound st S f) (hc : Carries st f g) :
+    Sound st S g := by
   obtain ⟨dg, hd, h1⟩ := h
   exact ⟨dg, hd, h1.trans hc⟩
 
-theorem Sound.of_mem {S : List Frame} {f : Frame} (h : f ∈ S) : Sound S f := ⟨f, h, .self f⟩
+theorem Sound.of_mem {st : Bool} {S : List Frame} {f : Frame} (h : f ∈ S) : Sound st S f := ⟨f, h, .self f⟩
 
 /-- Loop invariant: everything in `_q` was carried by a source frame and every datagram still
 to come is a source frame. -/
-def Inv (S : List Frame) (q : List Frame) (evs : List RxEvent) : Prop :=
-  (∀ x ∈ q, Sound S x) ∧ (∀ x ∈ framesOf evs, x ∈ S)
+def Inv (st : Bool) (S : List Frame) (q : List Frame) (evs : List RxEvent) : Prop :=
+  (∀ x ∈ q, Sound st S x) ∧ (∀ x ∈ framesOf evs, x ∈ S)
 
-theorem Inv.tail {S q ev evs} (h : Inv S q (ev :: evs)) : Inv S q evs := by
+theorem Inv.tail {st S q ev evs} (h : Inv st S q (ev :: evs)) : Inv st S q evs := by
   refine ⟨h.1, fun x hx => h.2 x ?_⟩
   cases ev <;> simp [framesOf, hx]
 
-theorem Inv.nilq {S q evs} (h : Inv S q evs) : Inv S [] evs := ⟨by simp, h.2⟩
+theorem Inv.nilq {st S q evs} (h : Inv st S q evs) : Inv st S [] evs := ⟨by simp, h.2⟩
 
-theorem Inv.qtail {S f q evs} (h : Inv S (f :: q) evs) : Inv S q evs :=
+theorem Inv.qtail {st S f q evs} (h : Inv st S (f :: q) evs) : Inv st S q evs :=
   ⟨fun x hx => h.1 x (List.mem_cons_of_mem _ hx), h.2⟩
 
 theorem recvIpmi_got {cfg : Cfg} {ev : RxEvent} {f : Frame} (h : recvIpmi cfg ev = .got f) :
@@ -58,31 +60,20 @@ theorem framesOf_cons_mem {ev : RxEvent} {evs : List RxEvent} {f : Frame} (h : f
   cases ev <;> simp_all [framesOf]
 
 /-- What a `Next` result has to satisfy. -/
-def NextOk (cs : Bool) (h : Hdr) (S : List Frame) : Next → Prop
-  | .counted g isHit q evs => Sound S g ∧ (isHit = true → isReplyTo cs h.rid g) ∧ Inv S q evs
-  | .timeout evs => Inv S [] evs
-  | .abort e q evs => (∀ d, e ≠ .ok d) ∧ Inv S q evs
+def NextOk (st cs : Bool) (h : Hdr) (S : List Frame) : Next → Prop
+  | .counted g isHit q evs => Sound st S g ∧ (isHit = true → isReplyTo cs h.rid g) ∧ Inv st S q evs
+  | .timeout evs => Inv st S [] evs
+  | .abort e q evs => (∀ d, e ≠ .ok d) ∧ Inv st S q evs
 
-theorem classify_err {cs : Bool} {h : Hdr} {f : Frame} {e : Outcome Frame}
-    (hc : classify cs h f = .err e) : ∀ d, e ≠ .ok d := by
-  intro d hd
-  subst hd
-  unfold classify at hc
-  split at hc
-  · cases hc
-  · split at hc
-    · split at hc
-      · split at hc
-        · cases hc
-        · split at hc
-          · cases hc
-          · split at hc <;> cases hc
-      · rename_i hne
-        injection hc with hc
-        exact hne d hc
-    · split at hc
-      · cases hc
-      · split at hc <;> cases hc
+theorem classify_err {co cs : Bool} {bridge : Option Hdr} {h : Hdr} {f : Frame} {e : Outcome Frame}
+    (hc : classify co cs bridge h f = .err e) : ∀ d, e ≠ .ok d := by
+  rcases classify_cases co cs bridge h f with he | he | he <;> rw [he] at hc
+  · injection hc with hc
+    subst hc
+    intro d hd
+    cases hd
+  · exact plain_err hc
+  · exact afterPeel_err hc
 
 theorem recvIpmi_err {cfg : Cfg} {ev : RxEvent} {e : Outcome Frame}
     (hr : recvIpmi cfg ev = .err e) : ∀ d, e ≠ .ok d := by
@@ -100,8 +91,9 @@ theorem recvIpmi_err {cfg : Cfg} {ev : RxEvent} {e : Outcome Frame}
     simp only [recvIpmi] at hr
     split at hr <;> cases hr
 
-theorem nextSock_ok (cfg : Cfg) (h : Hdr) (hn : h.netfn % 2 = 0) (S : List Frame) (evs : List RxEvent)
-    (hi : Inv S [] evs) : NextOk cfg.checkSeq h S (nextSock cfg h evs) := by
+theorem nextSock_ok (cfg : Cfg) (bridge : Option Hdr) (h : Hdr) (hn : h.netfn % 2 = 0) (S : List Frame)
+    (evs : List RxEvent) (hi : Inv (!cfg.cmdOnly) S [] evs) :
+    NextOk (!cfg.cmdOnly) cfg.checkSeq h S (nextSock cfg bridge h evs) := by
   induction evs with
   | nil => simpa [nextSock, NextOk] using hi
   | cons ev rest ih =>
@@ -122,13 +114,14 @@ theorem nextSock_ok (cfg : Cfg) (h : Hdr) (hn : h.netfn % 2 = 0) (S : List Frame
         have := classify_hit hn hc
         exact ⟨(Sound.of_mem hf).step this.1, fun _ => this.2, hi.tail⟩
 
-theorem nextQ_ok (cfg : Cfg) (h : Hdr) (hn : h.netfn % 2 = 0) (S : List Frame) (q : List Frame)
-    (evs : List RxEvent) (hi : Inv S q evs) : NextOk cfg.checkSeq h S (nextQ cfg h q evs) := by
+theorem nextQ_ok (cfg : Cfg) (bridge : Option Hdr) (h : Hdr) (hn : h.netfn % 2 = 0) (S : List Frame)
+    (q : List Frame) (evs : List RxEvent) (hi : Inv (!cfg.cmdOnly) S q evs) :
+    NextOk (!cfg.cmdOnly) cfg.checkSeq h S (nextQ cfg bridge h q evs) := by
   induction q with
-  | nil => simpa [nextQ] using nextSock_ok cfg h hn S evs hi
+  | nil => simpa [nextQ] using nextSock_ok cfg bridge h hn S evs hi
   | cons f q ih =>
     simp only [nextQ]
-    have hf : Sound S f := hi.1 f (List.mem_cons_self)
+    have hf : Sound (!cfg.cmdOnly) S f := hi.1 f (List.mem_cons_self)
     split
     · exact ih hi.qtail
     · rename_i e hc
@@ -139,19 +132,20 @@ theorem nextQ_ok (cfg : Cfg) (h : Hdr) (hn : h.netfn % 2 = 0) (S : List Frame) (
       have := classify_hit hn hc
       exact ⟨hf.step this.1, fun _ => this.2, hi.qtail⟩
 
-def InnerOk (cs : Bool) (h : Hdr) (S : List Frame) : Inner → Prop
-  | .done g q evs => Sound S g ∧ isReplyTo cs h.rid g ∧ Inv S q evs
-  | .exhausted q evs => Inv S q evs
-  | .timeout evs => Inv S [] evs
-  | .abort e q evs => (∀ d, e ≠ .ok d) ∧ Inv S q evs
+def InnerOk (st cs : Bool) (h : Hdr) (S : List Frame) : Inner → Prop
+  | .done g q evs => Sound st S g ∧ isReplyTo cs h.rid g ∧ Inv st S q evs
+  | .exhausted q evs => Inv st S q evs
+  | .timeout evs => Inv st S [] evs
+  | .abort e q evs => (∀ d, e ≠ .ok d) ∧ Inv st S q evs
 
-theorem inner_ok (cfg : Cfg) (h : Hdr) (hn : h.netfn % 2 = 0) (S : List Frame) (b : Nat) (q : List Frame)
-    (evs : List RxEvent) (hi : Inv S q evs) : InnerOk cfg.checkSeq h S (inner cfg h b q evs) := by
+theorem inner_ok (cfg : Cfg) (bridge : Option Hdr) (h : Hdr) (hn : h.netfn % 2 = 0) (S : List Frame) (b : Nat)
+    (q : List Frame) (evs : List RxEvent) (hi : Inv (!cfg.cmdOnly) S q evs) :
+    InnerOk (!cfg.cmdOnly) cfg.checkSeq h S (inner cfg bridge h b q evs) := by
   induction b generalizing q evs with
   | zero => simpa [inner, InnerOk] using hi
   | succ b ih =>
     simp only [inner]
-    have hnx := nextQ_ok cfg h hn S q evs hi
+    have hnx := nextQ_ok cfg bridge h hn S q evs hi
     split
     · rename_i g q' evs' heq
       rw [heq] at hnx
@@ -175,11 +169,11 @@ theorem inner_ok (cfg : Cfg) (h : Hdr) (hn : h.netfn % 2 = 0) (S : List Frame) (
       exact hnx
 
 /-- Soundness of the whole `_send_and_receive` loop nest. -/
-theorem outer_ok (cfg : Cfg) (h : Hdr) (hn : h.netfn % 2 = 0) (S : List Frame) (r : Nat) (q : List Frame)
-    (evs : List RxEvent) (n : Nat) (hi : Inv S q evs) :
-    let res := outer cfg h r q evs n
-    Inv S res.queue res.rest ∧
-    (∀ d, res.out = .ok d → ∃ g, Sound S g ∧ isReplyTo cfg.checkSeq h.rid g ∧
+theorem outer_ok (cfg : Cfg) (bridge : Option Hdr) (h : Hdr) (hn : h.netfn % 2 = 0) (S : List Frame) (r : Nat)
+    (q : List Frame) (evs : List RxEvent) (n : Nat) (hi : Inv (!cfg.cmdOnly) S q evs) :
+    let res := outer cfg bridge h r q evs n
+    Inv (!cfg.cmdOnly) S res.queue res.rest ∧
+    (∀ d, res.out = .ok d → ∃ g, Sound (!cfg.cmdOnly) S g ∧ isReplyTo cfg.checkSeq h.rid g ∧
         d = pySlice Gen.Loops04.rmcpDataLo Gen.Loops04.rmcpDataHi g) := by
   induction r generalizing q evs n with
   | zero =>
@@ -187,7 +181,7 @@ theorem outer_ok (cfg : Cfg) (h : Hdr) (hn : h.netfn % 2 = 0) (S : List Frame) (
     exact ⟨hi, fun d hd => by cases hd⟩
   | succ r ih =>
     simp only [outer]
-    have hin := inner_ok cfg h hn S (innerBudget cfg) q evs hi
+    have hin := inner_ok cfg bridge h hn S (innerBudget cfg) q evs hi
     split
     · rename_i g q' evs' heq
       rw [heq] at hin
@@ -203,6 +197,237 @@ theorem outer_ok (cfg : Cfg) (h : Hdr) (hn : h.netfn % 2 = 0) (S : List Frame) (
     · rename_i evs' heq
       rw [heq] at hin
       exact ih [] evs' (n + 1) hin
+
+def Next.qOf : Next → List Frame
+  | .counted _ _ q _ => q
+  | .timeout _ => []
+  | .abort _ q _ => q
+
+def Next.restOf : Next → List RxEvent
+  | .counted _ _ _ r => r
+  | .timeout r => r
+  | .abort _ _ r => r
+
+/-- the socket part of the loop body never produces a `_q` -/
+theorem nextSock_qOf (cfg : Cfg) (bridge : Option Hdr) (h : Hdr) (evs : List RxEvent) :
+    (nextSock cfg bridge h evs).qOf = [] := by
+  induction evs with
+  | nil => simp [nextSock, Next.qOf]
+  | cons ev rest ih =>
+    simp only [nextSock]
+    split
+    · rfl
+    · rfl
+    · split
+      · exact ih
+      · rfl
+      · rfl
+      · rfl
+
+/-- … and what it leaves unread is a suffix of what it was given -/
+theorem nextSock_rest_sub (cfg : Cfg) (bridge : Option Hdr) (h : Hdr) (evs : List RxEvent) :
+    ∀ x ∈ framesOf (nextSock cfg bridge h evs).restOf, x ∈ framesOf evs := by
+  induction evs with
+  | nil => simp [nextSock, Next.restOf]
+  | cons ev more ih =>
+    have tl : ∀ x ∈ framesOf more, x ∈ framesOf (ev :: more) := by
+      intro x hx; cases ev <;> simp [framesOf, hx]
+    simp only [nextSock]
+    split
+    · exact tl
+    · exact tl
+    · split
+      · exact fun x hx => tl x (ih x hx)
+      · exact tl
+      · exact tl
+      · exact tl
+
+theorem nextQ_rest_sub (cfg : Cfg) (bridge : Option Hdr) (h : Hdr) (q : List Frame) (evs : List RxEvent) :
+    ∀ x ∈ framesOf (nextQ cfg bridge h q evs).restOf, x ∈ framesOf evs := by
+  induction q with
+  | nil => simpa [nextQ] using nextSock_rest_sub cfg bridge h evs
+  | cons f q ih =>
+    simp only [nextQ]
+    split
+    · exact ih
+    · exact fun x hx => hx
+    · exact fun x hx => hx
+    · exact fun x hx => hx
+
+def Inner.restOf : Inner → List RxEvent
+  | .done _ _ r => r
+  | .exhausted _ r => r
+  | .timeout r => r
+  | .abort _ _ r => r
+
+theorem inner_rest_sub (cfg : Cfg) (bridge : Option Hdr) (h : Hdr) (b : Nat) (q : List Frame) (evs : List RxEvent) :
+    ∀ x ∈ framesOf (inner cfg bridge h b q evs).restOf, x ∈ framesOf evs := by
+  induction b generalizing q evs with
+  | zero => exact fun x hx => hx
+  | succ b ih =>
+    have hs := nextQ_rest_sub cfg bridge h q evs
+    simp only [inner]
+    split
+    · rename_i g q' evs' heq
+      rw [heq] at hs
+      exact hs
+    · rename_i g q' evs' heq
+      rw [heq] at hs
+      exact fun x hx => hs x (ih _ evs' x hx)
+    · rename_i evs' heq
+      rw [heq] at hs
+      exact hs
+    · rename_i e q' evs' heq
+      rw [heq] at hs
+      exact hs
+
+/-- what a request leaves unread is part of what it was given -/
+theorem outer_rest_sub (cfg : Cfg) (bridge : Option Hdr) (h : Hdr) (r : Nat) (q : List Frame) (evs : List RxEvent)
+    (n : Nat) : ∀ x ∈ framesOf (outer cfg bridge h r q evs n).rest, x ∈ framesOf evs := by
+  induction r generalizing q evs n with
+  | zero => exact fun x hx => hx
+  | succ r ih =>
+    have hs := inner_rest_sub cfg bridge h (innerBudget cfg) q evs
+    simp only [outer]
+    split
+    · rename_i g q' evs' heq
+      rw [heq] at hs
+      exact hs
+    · rename_i q' evs' heq
+      rw [heq] at hs
+      exact hs
+    · rename_i e q' evs' heq
+      rw [heq] at hs
+      exact hs
+    · rename_i evs' heq
+      rw [heq] at hs
+      exact fun x hx => hs x (ih [] evs' (n + 1) x hx)
+
+/-! ### where a CompletionCodeError can come from (repaired recognition)
+
+Only `decode_bridged_message` raises one, and the repaired loop calls it only for a frame that passed
+`rx_filter` against the Send Message request of the transaction in hand. -/
+
+theorem plain_no_cc (cs : Bool) (h : Hdr) (f : Frame) (c : Nat) : plain cs h f ≠ .err (.ccError c) := by
+  unfold plain
+  split
+  · intro hx; injection hx with hx; cases hx
+  · split <;> (intro hx; cases hx)
+
+theorem classify_cc {cs : Bool} {bridge : Option Hdr} {h : Hdr} {f : Frame} {c : Nat}
+    (hc : classify false cs bridge h f = .err (.ccError c)) : ∃ bh, bridge = some bh ∧ rxFilter cs bh f = true := by
+  unfold classify at hc
+  simp only [Bool.false_eq_true, if_false] at hc
+  cases bridge with
+  | none => exact absurd hc (plain_no_cc cs h f c)
+  | some bh =>
+    simp only at hc
+    split at hc
+    · injection hc with hc; cases hc
+    · split at hc
+      · rename_i hf
+        exact ⟨bh, rfl, hf⟩
+      · exact absurd hc (plain_no_cc cs h f c)
+
+theorem recvIpmi_no_cc {cfg : Cfg} {ev : RxEvent} {c : Nat} : recvIpmi cfg ev ≠ .err (.ccError c) := by
+  cases ev with
+  | timeout => simp [recvIpmi]
+  | malformed => simp [recvIpmi]
+  | badLen bs =>
+    simp only [recvIpmi]
+    split
+    · split <;> simp
+    · simp
+  | frame bs =>
+    simp only [recvIpmi]
+    split <;> simp
+
+/-- the frame on which the socket part of the loop body aborted with a completion code -/
+theorem nextSock_cc (cfg : Cfg) (hco : cfg.cmdOnly = false) (bridge : Option Hdr) (h : Hdr) (evs : List RxEvent)
+    (c : Nat) (q : List Frame) (rest : List RxEvent)
+    (hx : nextSock cfg bridge h evs = .abort (.ccError c) q rest) :
+    ∃ bh, bridge = some bh ∧ ∃ f ∈ framesOf evs, rxFilter cfg.checkSeq bh f = true := by
+  induction evs with
+  | nil => simp [nextSock] at hx
+  | cons ev more ih =>
+    simp only [nextSock] at hx
+    split at hx
+    · cases hx
+    · rename_i e hr
+      injection hx with hx
+      subst hx
+      exact absurd hr recvIpmi_no_cc
+    · rename_i f hr
+      have hf : f ∈ framesOf (ev :: more) := framesOf_cons_mem (recvIpmi_got hr)
+      split at hx
+      · obtain ⟨bh, hb, g, hg, hflt⟩ := ih hx
+        refine ⟨bh, hb, g, ?_, hflt⟩
+        cases ev <;> simp [framesOf, hg]
+      · rename_i e hc
+        injection hx with hx
+        subst hx
+        rw [hco] at hc
+        obtain ⟨bh, hb, hflt⟩ := classify_cc hc
+        exact ⟨bh, hb, f, hf, hflt⟩
+      · cases hx
+      · cases hx
+
+theorem inner_cc (cfg : Cfg) (hco : cfg.cmdOnly = false) (hq : cfg.requeue = false) (bridge : Option Hdr) (h : Hdr)
+    (b : Nat) (evs : List RxEvent) :
+    (∀ c q rest, inner cfg bridge h b [] evs = .abort (.ccError c) q rest →
+      ∃ bh, bridge = some bh ∧ ∃ f ∈ framesOf evs, rxFilter cfg.checkSeq bh f = true) ∧
+    (∀ rest, inner cfg bridge h b [] evs = .timeout rest → ∀ x ∈ framesOf rest, x ∈ framesOf evs) := by
+  induction b generalizing evs with
+  | zero => simp [inner]
+  | succ b ih =>
+    have hsub := nextSock_rest_sub cfg bridge h evs
+    have hqe := nextSock_qOf cfg bridge h evs
+    simp only [inner, nextQ]
+    cases hnx : nextSock cfg bridge h evs with
+    | counted g isHit q' evs' =>
+      rw [hnx] at hsub hqe
+      simp only [Next.restOf, Next.qOf] at hsub hqe
+      subst hqe
+      cases isHit with
+      | true => simp
+      | false =>
+        simp only [hq, Bool.false_eq_true, if_false]
+        obtain ⟨ih1, ih2⟩ := ih evs'
+        refine ⟨fun c q rest hx => ?_, fun rest hx x hxm => hsub x (ih2 rest hx x hxm)⟩
+        obtain ⟨bh, hb, f, hf, hflt⟩ := ih1 c q rest hx
+        exact ⟨bh, hb, f, hsub f hf, hflt⟩
+    | timeout evs' =>
+      rw [hnx] at hsub
+      simp only [Next.restOf] at hsub
+      refine ⟨fun c q rest hx => (by cases hx), fun rest hx => ?_⟩
+      injection hx with hx
+      subst hx
+      exact hsub
+    | abort e q' evs' =>
+      refine ⟨fun c q rest hx => ?_, fun rest hx => (by cases hx)⟩
+      injection hx with h1 h2 h3
+      subst h1
+      exact nextSock_cc cfg hco bridge h evs c q' evs' hnx
+
+theorem outer_cc (cfg : Cfg) (hco : cfg.cmdOnly = false) (hq : cfg.requeue = false) (bridge : Option Hdr) (h : Hdr)
+    (r : Nat) (evs : List RxEvent) (n : Nat) (c : Nat)
+    (hx : (outer cfg bridge h r [] evs n).out = .ccError c) :
+    ∃ bh, bridge = some bh ∧ ∃ f ∈ framesOf evs, rxFilter cfg.checkSeq bh f = true := by
+  induction r generalizing evs n with
+  | zero => simp [outer] at hx
+  | succ r ih =>
+    obtain ⟨h1, h2⟩ := inner_cc cfg hco hq bridge h (innerBudget cfg) evs
+    simp only [outer] at hx
+    split at hx
+    · cases hx
+    · cases hx
+    · rename_i e q' evs' heq
+      simp only at hx
+      subst hx
+      exact h1 c q' evs' heq
+    · rename_i evs' heq
+      obtain ⟨bh, hb, f, hf, hflt⟩ := ih evs' (n + 1) hx
+      exact ⟨bh, hb, f, h2 evs' heq f hf, hflt⟩
 
 /-! ### ipmb-dev / Aardvark -/
 
@@ -303,15 +528,15 @@ theorem i2cAttempts_ok (cfg : I2cCfg) (h : Hdr) (hn : h.netfn % 2 = 0) (S : List
 
 /-! ### helpers for the session and sequence-number theorems -/
 
-theorem sound_bind {A B S : List Frame} {x : Frame} (h : Sound (A ++ B) x)
-    (ha : ∀ y ∈ A, Sound S y) (hb : ∀ y ∈ B, y ∈ S) : Sound S x := by
+theorem sound_bind {st : Bool} {A B S : List Frame} {x : Frame} (h : Sound st (A ++ B) x)
+    (ha : ∀ y ∈ A, Sound st S y) (hb : ∀ y ∈ B, y ∈ S) : Sound st S x := by
   obtain ⟨dg, hd, hc⟩ := h
   rcases List.mem_append.mp hd with hd | hd
   · exact (ha dg hd).step hc
   · exact ⟨dg, hb dg hd, hc⟩
 
-theorem outer_sends (cfg : Cfg) (h : Hdr) (r : Nat) (q : List Frame) (evs : List RxEvent) (n : Nat) :
-    n ≤ (outer cfg h r q evs n).sends ∧ (0 < r → n < (outer cfg h r q evs n).sends) := by
+theorem outer_sends (cfg : Cfg) (bridge : Option Hdr) (h : Hdr) (r : Nat) (q : List Frame) (evs : List RxEvent)
+    (n : Nat) : n ≤ (outer cfg bridge h r q evs n).sends ∧ (0 < r → n < (outer cfg bridge h r q evs n).sends) := by
   induction r generalizing q evs n with
   | zero => simp [outer]
   | succ r ih =>
